@@ -44,7 +44,7 @@ const std::string& scratch() {
   }
   return scratchDir;
 }
-char kindOf(const std::string& p) { struct stat st; if (lstat(p.c_str(), &st) != 0) return 0; return S_ISDIR(st.st_mode) ? 'd' : S_ISLNK(st.st_mode) ? 'l' : 'f'; }
+char kindOf(const std::string& p) { struct stat st; if (lstat(p.c_str(), &st) != 0) return 0; return S_ISDIR(st.st_mode) ? 'd' : S_ISLNK(st.st_mode) ? 'l' : S_ISFIFO(st.st_mode) ? 'p' : 'f'; }   /* 'p': never opened by the helpers (opening a FIFO blocks) */
 bool removeTree(const std::string& path) {
   char k = kindOf(path); if (!k) return true;
   if (k != 'd') return ::unlink(path.c_str()) == 0;
